@@ -138,3 +138,11 @@ def cycle_boundary_programs(wd, targets=(62, 63, 64, 126, 127, 128, 254, 255, 25
             p["class"] = "cycles-%d" % t
             out.append(p)
     return out
+
+
+def chiplet_boundary_programs(thorough=False):
+    """straight-line programs whose chiplet rows (8 hasher rows per span batch + one memory row per access) sweep across
+    2^k - 1: there the last chiplet row is the last row before the random row unless the length doubles, and the chiplets -
+    not the executed cycles - decide the padded length (each MLOAD is one cycle and one memory row)"""
+    ms = list(range(50, 60)) + list(range(107, 116)) + list(range(219, 228)) if thorough else [54, 55, 56, 111]
+    return [{"src": "begin\n  " + "mem_load " * m + "\nend\n", "kernel": None, "inputs": [0], "adv": [], "class": "chiplets-%d" % m} for m in ms]
